@@ -115,6 +115,7 @@ def r4(ctx):
     ctx.check(bool(lk), "C17.R4", "a lookup factor's variable is its own expression", sf.where, ctx.construct(sf, text="lookup → name"),
               "expected the lookup branch to return Variable(factor.expr, roles=('value',))")
     alias_round_trip(ctx, "C17.R4")
+    variable_traversal(ctx, "C17.R4")
     ok = "if 'value' in variable.roles" in norm(sf.node)
     ctx.check(ok, "C17.R4", "only value-role variables are required (callables are not data)", sf.where, ctx.construct(sf, text="roles"), "role filter missing")
 
@@ -180,6 +181,24 @@ def alias_round_trip(ctx, rule: str):
     ctx.floor(rule, n, 2, "sanitise-then-extract sites")
 
 
+def variable_traversal(ctx, rule: str):
+    """The variable extractor visits every sub-expression: positional AND keyword arguments of calls, children of every other node."""
+    P = ctx.project
+    f = P.func("formulaic.utils.variables._get_ast_node_variables")
+    t = norm(f.node)
+    ctx.look()
+    ok = "todo.extend(ast.iter_child_nodes(node))" in t and "todo.extend(node.args)" in t and "todo.extend(node.keywords)" in t \
+        and "if not isinstance(node, (ast.Call, ast.Attribute, ast.Name)):" in t
+    ctx.check(ok, rule, "variables are collected from positional and keyword arguments and all nested expressions", f.where, ctx.construct(f, text="traversal"),
+              "the traversal must queue node.args, node.keywords and (for other nodes) all child nodes: a column read only through a keyword argument would not be reported")
+    ok = "variables.append(Variable(name, roles=['callable']))" in t and "variables.append(Variable(name, roles=['value']))" in t and "name = aliases.get(name, name)" in t
+    ctx.check(ok, rule, "callables and values are told apart and aliases are mapped back", f.where, ctx.construct(f, text="roles"), "role / alias handling changed")
+    g = P.func("formulaic.utils.variables.get_expression_variables")
+    ok = "context.get_layer_name_for_key(variable.split('.', 1)[0])" in norm(g.node)
+    ctx.check(ok, rule, "the source of a dotted name is looked up by its base name", g.where, ctx.construct(g, text="base name"),
+              "the layer must be looked up with the part before the FIRST dot (`when.dt.year` lives where `when` lives)")
+
+
 def r5(ctx):
     P = ctx.project
     f = P.func(c14.c01.OPS).locals_named("insert_unused_terms")
@@ -209,6 +228,9 @@ def r5(ctx):
     ok = ".layered_context" in norm(sg.node) and "context=_spec_context" in norm(sg.node)
     ctx.check(ok, "C17.R5", "model_matrix() parses the formula against the materializer's layered context (so `.` sees the data columns)", sg.where,
               ctx.construct(sg, text="spec context"), "the parser context must be the materializer's layered_context")
+    # the left-hand-side scan relies on the `~` split performed by the token rewriters for every parser configuration (= C01.R4 / C01.R10)
+    from .shared import relabel
+    relabel(ctx, "C17.R5", c14.c01.r4, c14.c01.r10)
 
 
 def r6(ctx):
